@@ -3,6 +3,7 @@ package sched
 
 import (
 	"fmt"
+	"os"
 	"runtime"
 	"strings"
 	"unsafe"
@@ -121,6 +122,120 @@ var cur *Exec
 //
 //go:noinline
 func Cur() *Exec { return cur }
+
+// Release points. A context switch inside a critical section that contains no visible operation
+// cannot be told from a switch before it -- unless some thread uses TryLock, which observes "held"
+// without blocking. So: the shims remember, per lock instance, where it is released from; once a
+// TryLock / TryRLock is executed on an instance, those release sites (return addresses of the
+// callers of Unlock) enter a process-wide set, and releasing ANY lock from a site in the set is a
+// scheduling point: a thread can be parked while it holds such a lock. Every growth of the set
+// bumps unlockGen and makes Explore start over (explore.go), so the pass whose counters are
+// reported ran with one fixed set from its first execution to its last. Replay files carry the
+// set as "function:line" names. No maps here: the race build instruments runtime map helpers.
+var (
+	trySeen         bool
+	allUnlocks      = os.Getenv("VERIF_UNLOCK_POINTS") == "1"
+	unlockSites     [64]uintptr
+	unlockSiteNames [64]string
+	nUnlockSites    int
+	unlockGen       int
+	replaySites     []string // replay mode: the recorded set, matched by name
+)
+
+// NoteTryLock is called by the lock shims whenever a TryLock / TryRLock is executed.
+//
+//go:noinline
+func NoteTryLock() {
+	if !trySeen {
+		trySeen = true
+		unlockGen++
+	}
+}
+
+// TrySeen reports whether any TryLock has been executed in this process (or a replay says so).
+//
+//go:noinline
+func TrySeen() bool { return trySeen }
+
+// AllUnlockPoints makes every lock release a scheduling point (fallback when a lock instance
+// is released from more places than a shim records).
+//
+//go:noinline
+func AllUnlockPoints() {
+	if !allUnlocks {
+		allUnlocks = true
+		unlockGen++
+	}
+}
+
+// AddUnlockSite adds a release site of a lock instance on which TryLock is used.
+//
+//go:noinline
+func AddUnlockSite(pc uintptr) {
+	for i := 0; i < nUnlockSites; i++ {
+		if unlockSites[i] == pc {
+			return
+		}
+	}
+	if nUnlockSites == len(unlockSites) {
+		AllUnlockPoints()
+		return
+	}
+	unlockSites[nUnlockSites], unlockSiteNames[nUnlockSites] = pc, siteName(pc)
+	nUnlockSites++
+	unlockGen++
+}
+
+func siteName(pc uintptr) string {
+	f := runtime.FuncForPC(pc - 1)
+	if f == nil {
+		return "?"
+	}
+	_, line := f.FileLine(pc - 1)
+	return fmt.Sprintf("%s:%d", f.Name(), line)
+}
+
+// CallerPC returns the return address skip frames above its caller (1 = the caller's caller).
+//
+//go:noinline
+func CallerPC(skip int) uintptr {
+	var pcs [1]uintptr
+	if runtime.Callers(skip+2, pcs[:]) == 0 {
+		return 0
+	}
+	return pcs[0]
+}
+
+// UnlockPointAt is called by the lock shims before a lock is released from site pc.
+//
+//go:noinline
+func (x *Exec) UnlockPointAt(obj any, pc uintptr) {
+	if x.aborting {
+		return
+	}
+	on := allUnlocks
+	if !on && replaySites != nil {
+		n := siteName(pc)
+		for _, s := range replaySites {
+			on = on || s == n
+		}
+	} else if !on {
+		for i := 0; i < nUnlockSites; i++ {
+			on = on || unlockSites[i] == pc
+		}
+	}
+	if on {
+		x.point(&pending{kind: "Unlock", obj: obj, enabled: func() bool { return true }})
+	}
+}
+
+func unlockSiteList() []string {
+	out := make([]string, 0, nUnlockSites)
+	for i := 0; i < nUnlockSites; i++ {
+		out = append(out, unlockSiteNames[i])
+	}
+	return out
+}
 
 // Fault is one oracle failure of an execution, under a stable finding key.
 type Fault struct{ Key, Msg string }
